@@ -396,7 +396,7 @@ func c08History(c *vc.Ctx, idx int) {
 			var specs []world.TxSpec
 			s := seq
 			for i := 0; i < k; i++ {
-				x := r.Intn(7)
+				x := r.Intn(9)
 				if flood {
 					x = []int{0, 2, 6}[r.Intn(3)]
 				}
@@ -427,6 +427,20 @@ func c08History(c *vc.Ctx, idx int) {
 						vn, vs, _ := h.ch.Account(g.Voters[0].Addr)
 						m := &relayertypes.MsgAcceptProposerRequest{Proposer: g.Voters[0].AddrStr, Epoch: g.Epoch}
 						specs = append(specs, world.TxSpec{Msgs: []sdk.Msg{m}, Priv: g.Voters[0].Tx, AccNum: vn, Seq: vs})
+					}
+				case 7, 8: // an execution-block message offered to the mempool (by the relayer proposer, or by a validator): never admissible there
+					if p := h.lastPayload(); p != nil {
+						m := &goatxtypes.MsgNewEthBlock{Proposer: g.Proposer.AddrStr, Payload: p}
+						sp := world.TxSpec{Msgs: []sdk.Msg{m}, Priv: g.Proposer.Tx, AccNum: num, Seq: s}
+						if x == 8 {
+							sp.Timeout = uint64(h.ch.Height + 1)
+						}
+						specs = append(specs, sp)
+						if r.Intn(2) == 0 {
+							vn, vs, _ := h.ch.Account(sdk.AccAddress(h.ch.W.Vals[0].Cons))
+							m2 := &goatxtypes.MsgNewEthBlock{Proposer: h.ch.W.ValAddrStr(0), Payload: p}
+							specs = append(specs, world.TxSpec{Msgs: []sdk.Msg{m2}, Priv: h.ch.W.ValPriv(0), AccNum: vn, Seq: vs, Timeout: uint64(h.ch.Height + 1)})
+						}
 					}
 				case 6: // malformed deposits
 					dep := &bitcointypes.MsgNewDeposits{Proposer: g.Proposer.AddrStr, BlockHeaders: []*bitcointypes.BlockHeader{{Height: 1, Raw: make([]byte, 80)}},
